@@ -161,6 +161,27 @@ def r1(chk, prog):
                                 for bid, cond in cfg.cond_blocks()) and \
         cfg.reachable_from(cfg.position(left[0]), cfg.position(text[0])) if text else False
     chk.check(ok, 'R1', h.name, 'left alignment applied iff requested, before the text', h.loc())
+    # the sticky std::left is undone on every path on which it was set
+    right = [c for c in streams if any(x.get('k') == 'DeclRefExpr' and x['ref'].get('q') == 'std::right'
+                                       for x in walk(call_args(c)[1]))]
+    if left:
+        lp = cfg.position(left[0])
+        rids = {c['id'] for c in right}
+        # the alignment flag of the field definition is constant inside append(): every test of it takes
+        # the same branch as the one that guarded std::left
+        same = set()
+        for bid, cond in cfg.cond_blocks():
+            c0 = strip_all_casts(cond) if cond else None
+            if c0 is not None and field_name(c0) == 'mAlignLeft':
+                e = cfg.edge_guard(bid, 1)
+                if e:
+                    same.add(e)
+        bad = cfg.can_reach_exit((lp[0], lp[1] + 1), lambda p, e: isinstance(e, int) and e in rids,
+                                 blocked_edges=same)
+        chk.check(not bad and bool(right), 'R1', h.name,
+                  'the alignment is switched back after the field (it is a sticky stream state)', h.loc(),
+                  'a path leaves append() with std::left still set on the destination stream: later right-aligned '
+                  'fields are padded on the wrong side')
 
 
 def r2(chk, prog):
